@@ -706,6 +706,8 @@ class _SFTPParallelIO(Generic[_T]):
 
     """
 
+    _stop_at_eof = False
+
     def __init__(self, block_size: int, max_requests: int,
                  offset: int, size: int):
         self._block_size = block_size
@@ -757,8 +759,13 @@ class _SFTPParallelIO(Generic[_T]):
                     if count and count < size:
                         self._pending.add(asyncio.ensure_future(
                             self._start_task(offset+count, size-count)))
-                except SFTPEOFError:
-                    self._bytes_left = 0
+                except SFTPEOFError as exc:
+                    # Reaching EOF ends a read, but it's an error
+                    # when returned in response to a write
+                    if self._stop_at_eof:
+                        self._bytes_left = 0
+                    else:
+                        exceptions.append(exc)
                 except (OSError, SFTPError) as exc:
                     exceptions.append(exc)
 
@@ -773,6 +780,8 @@ class _SFTPParallelIO(Generic[_T]):
 
 class _SFTPFileReader(_SFTPParallelIO[bytes]):
     """Parallelized SFTP file reader"""
+
+    _stop_at_eof = True
 
     def __init__(self, block_size: int, max_requests: int,
                  handler: 'SFTPClientHandler', handle: bytes,
